@@ -20,7 +20,7 @@ def one(path):
         b = subprocess.run(["go", "build", "./..."], cwd=dst, env=ENV, capture_output=True, text=True, errors="replace")
         if b.returncode != 0:
             return name, "stale", ["does not compile: " + b.stderr.strip()[:200]]
-        c = subprocess.run([os.path.join(HERE, "bin", "escalint"), "check", "-prop", "all", "-repo", dst, "-verif", HERE, "-n"], capture_output=True, text=True, errors="replace", env=ENV)
+        c = subprocess.run([os.environ.get("ESCALINT_BIN") or os.path.join(HERE, "bin", "escalint"), "check", "-prop", "all", "-repo", dst, "-verif", HERE, "-n"], capture_output=True, text=True, errors="replace", env=ENV)
         lines = [l for l in c.stdout.splitlines() if l.startswith(("VIOLATED", "UNDECIDED", "VACUOUS", "ANCHOR-LOST"))]
         return name, "green" if c.returncode == 0 else "ALARM", lines
     finally:
